@@ -268,10 +268,11 @@ def fold(e, env=None):
             if isinstance(recv, dict):
                 args = [fold(a, env) for a in e.args]
                 return recv.get(*args)
-        if isinstance(f, ast.Name):
-            # a pure table-building helper of the module (straight-line assignments, +=, if, for, return)
+        if isinstance(f, ast.Name) or (isinstance(f, ast.Attribute) and isinstance(f.value, ast.Name)):
+            # a pure table-building helper of the module or of an imported lasio module (straight-line assignments, +=, if,
+            # for, return)
             try:
-                fn = env("def " + f.id)
+                fn = env("def " + (f.id if isinstance(f, ast.Name) else f.value.id + "." + f.attr))
             except NotConst:
                 fn = None
             if isinstance(fn, FuncRef):
@@ -405,10 +406,19 @@ def module_env(project, modname):
             return cache[key]
         mod = project.modules.get(modname)
         if name.startswith("def "):
-            fi = mod.functions.get(name[4:]) if mod else None
+            fname, fmod = name[4:], mod
+            if "." in fname:
+                head, _, fname = fname.partition(".")
+                imp = mod.imports.get(head) if mod else None
+                fmod = project.modules.get(imp[1].split(".", 1)[1]) if imp and imp[0] == "module" and imp[1].startswith("lasio.") else None
+            elif mod is not None and fname not in mod.functions:
+                imp = mod.imports.get(fname)
+                if imp and imp[0] == "name" and imp[1].startswith("lasio."):
+                    fmod, fname = project.modules.get(imp[1].split(".", 1)[1]), imp[2]
+            fi = fmod.functions.get(fname) if fmod else None
             if fi is None or fi.node.decorator_list:
                 raise NotConst("no function %s" % name[4:])
-            return FuncRef(fi.node, module_env(project, modname))
+            return FuncRef(fi.node, module_env(project, fmod.name))
         target_mod, target_name = mod, name
         if "." in name:
             head, _, rest = name.partition(".")
